@@ -102,6 +102,7 @@ let con_case (line : string) : string =
         | CRet (r, c) -> add (Printf.sprintf "u%d:%s" (int_of_nat r) (string_of_z c))
         | CCb (r, st, _) -> add (Printf.sprintf "k%d:%s" (int_of_nat r) (string_of_z st))
         | CLost _ -> ()
+        | CUsable _ -> ()
         | CClosed -> add "x"
         | CReg n -> add (Printf.sprintf "q%d" (int_of_nat n))) evs;
       (* the harness then closes every handle and lets the loop finish (callbacks do nothing):
